@@ -48,9 +48,12 @@ class DynamicSGEDecider(SynthesisDecider):
         self.validate()
 
     def read(self, ty):
-        position = self.positions.get(ty, 0)
-        v = self.genotype.get(ty, position)
-        self.positions[ty] = position + 1
+        # Classes are their own key. Other symbols (unions, annotated types) are keyed by their printed form: two readings
+        # of a string annotation give objects that do not compare equal, and each would start a gene list of its own.
+        key = ty if isinstance(ty, type) else str(ty)
+        position = self.positions.get(key, 0)
+        v = self.genotype.get(key, position)
+        self.positions[key] = position + 1
         return v
 
     def random_int(self, min_int=-sys.maxsize, max_int=sys.maxsize) -> int:
